@@ -95,6 +95,11 @@ def oracle(c):
                 return "op %d: %s off=%d n=%d len=%d -> %s" % (j, k, off, len(bs), ln, ob)
             if want:
                 for i, b in enumerate(bs): shadow[off + i] = b
+    # guest operations made through another module: that module's own memory (3 pages) is nobody's business
+    if c.get("front") and any(p != 3 for p in c.get("front_pg") or []):
+        j = next(i for i, p in enumerate(c["front_pg"]) if p != 3)
+        return ("the guest operations of this history were called through a front module that imports them and has a 3-page memory of its own: "
+                "before op %d that memory has %d pages (sizes %s) — an operation on the memory under test changed another memory" % (j, c["front_pg"][j], c["front_pg"]))
     return None
 
 
